@@ -43,7 +43,10 @@ for idx in order:
     os.makedirs(od, exist_ok=True)
     kind = op["kind"]
     try:
-        if kind == "create":
+        if kind == "write":
+            with open(op["path"], "wb") as fh:
+                fh.write(bytes.fromhex(op["content_hex"]))
+        elif kind == "create":
             from suit_generator.cmd_create import main as m
             m(input_file=op["input"], input_format="AUTO", output_file=os.path.join(od, "out.suit"))
         elif kind == "parse":
@@ -226,6 +229,7 @@ def run(tier, seed):
                                                     f"but {short(ref[int(k)])} in a fresh interpreter",
                                         "expected": "identical output files"})
                         break
+        failing += rewrite_histories(ck, tmp)
         ck.cov["rule"] = ("operations: create from JSON and from YAML of the same generated description, parse (yaml/json, hierarchy on/off), "
                           "mpi generate, cache_create from_payloads, image boot; reference = each in a fresh interpreter; histories = random "
                           "sequences with repetitions and permutations inside one interpreter under PYTHONHASHSEED in {0,1,2,random} and "
@@ -235,6 +239,68 @@ def run(tier, seed):
     finally:
         shutil.rmtree(tmp, ignore_errors=True)
 
+
+
+def rewrite_histories(ck, tmp):
+    """The referenced file is part of the input: the SAME path is rewritten (same length and other lengths) between creates
+    inside one interpreter; each create must equal the create of that (description, file content) in a fresh interpreter."""
+    fails = []
+    d = os.path.join(tmp, "rewrite")
+    os.makedirs(d, exist_ok=True)
+    fp = os.path.join(d, "fw.bin")
+    contents = [bytes([1]) * 4096, bytes([2]) * 4096, bytes(range(256)) * 16, b"short", b""]
+    descs = []
+    for fmt in ("json", "yaml"):
+        desc = {"SUIT_Envelope_Tagged": {
+            "suit-authentication-wrapper": {"SuitDigest": {"suit-digest-algorithm-id": "cose-alg-sha-256"}},
+            "suit-manifest": {"suit-manifest-version": 1, "suit-manifest-sequence-number": 1,
+                              "suit-install": [{"suit-directive-override-parameters": {
+                                  "suit-parameter-image-digest": {"suit-digest-algorithm-id": "cose-alg-sha-256", "suit-digest-bytes": {"file": fp}},
+                                  "suit-parameter-image-size": {"file": fp}}}]},
+            "suit-integrated-payloads": {"#fw": fp}}}
+        pin = os.path.join(d, "in." + fmt)
+        with open(pin, "w") as fh:
+            if fmt == "json":
+                json.dump(desc, fh)
+            else:
+                import yaml
+                yaml.dump(desc, fh, sort_keys=False)
+        descs.append(pin)
+    ops = [{"kind": "write", "path": fp, "content_hex": c.hex()} for c in contents] + [{"kind": "create", "input": pin} for pin in descs]
+    nw = len(contents)
+    ops_file = os.path.join(d, "ops.json")
+    with open(ops_file, "w") as fh:
+        json.dump(ops, fh)
+    ref = {}
+    for w in range(nw):
+        for c in range(len(descs)):
+            r = run_worker(tmp, ops_file, [w, nw + c], os.path.join(d, f"fresh{w}_{c}"))
+            ref[(w, c)] = r.get(str(nw + c), [r])[0]
+            ck.count("rewrite-fresh", (w, c), nontrivial="exception" not in ref[(w, c)], sample={"op": "create after writing the file", "file_bytes": len(contents[w])})
+    seqs = [[0, 1, 0, 2, 3, 4, 0], [3, 0, 1]] + ([[ck.rng.randrange(nw) for _ in range(8)] for _ in range(6)] if ck.deep else [])
+    for si, seq in enumerate(seqs):
+        order, expect = [], []
+        for w in seq:
+            c = ck.rng.randrange(len(descs))
+            order += [w, nw + c]
+            expect.append((w, c))
+        r = run_worker(tmp, ops_file, order, os.path.join(d, f"hist{si}"), seed=ck.rng.choice(["0", "1"]))
+        ck.count("rewrite-history", tuple(order), nontrivial=True, sample={"writes_then_creates": seq})
+        if "worker_failed" in r:
+            fails.append({"input": {"order": order, "ops": ops}, "observed": "worker failed: " + r["worker_failed"], "expected": "runs"})
+            continue
+        seen = {}
+        for (w, c) in expect:
+            k = str(nw + c)
+            j = seen.get(k, 0)
+            seen[k] = j + 1
+            got = r[k][j]
+            if got != ref[(w, c)]:
+                fails.append({"input": {"order": order, "all_operations": ops, "step": f"create #{j} of {ops[nw + c]['input']} after writing content {w} ({len(contents[w])} bytes)"},
+                              "observed": f"create gives {short(got)} after the history, but {short(ref[(w, c)])} for the same description and file in a fresh interpreter",
+                              "expected": "identical output files"})
+                break
+    return fails
 
 def short(res):
     return {k: v[:12] for k, v in res.items()} if isinstance(res, dict) else res
